@@ -5,6 +5,7 @@ import (
 	"encoding/json"
 	"fmt"
 	"testing"
+	"time"
 
 	"pgregory.net/rapid"
 	"verifharness/ev"
@@ -16,7 +17,7 @@ import (
 // C02 broker role: the broker as receiver of QoS 1/2 publishes.
 
 type C02Op struct {
-	K      string `json:"k"` // pub1 pub2 rel duprel filler ping reconnect
+	K      string `json:"k"` // pub1 pub2 rel duprel filler ping reconnect jam
 	ID     uint16 `json:"id,omitempty"`
 	Sys    bool   `json:"sys,omitempty"` // pub1/pub2: the topic starts with '$' (nobody can receive it; it must be acknowledged like any other)
 	Dup    bool   `json:"dup,omitempty"` // pub2: the first copy of the exchange already carries DUP=1 (a retransmission whose original was lost)
@@ -154,6 +155,29 @@ func runC02(c C02Case) (res c02result) {
 			if op.Volume >= 16384 && len(open) > 0 {
 				cls["ring-of-filler-between-publish-and-pubrel"] = true
 			}
+		case "jam":
+			// the subscriber stops reading: the publisher's processor gets stuck handing a
+			// QoS 1 message on while the publisher goes on sending (more than a ring of
+			// unrelated traffic); then the subscriber reads again. Every PUBLISH is
+			// acknowledged once and handed on with the content it had.
+			S.Stall()
+			cls["publisher-stuck-on-a-subscriber-that-stopped-reading"] = true
+			var out []byte
+			for j := 0; j < 3; j++ {
+				msgno++
+				pl := payload(msgno, 7000)
+				topic := fmt.Sprintf("t/jam/%d", msgno)
+				id := uint16(400 + msgno%100)
+				out = append(out, codec.Encode(&codec.Packet{Type: codec.PUBLISH, QoS: 1, PacketID: id, Topic: []byte(topic), Payload: pl})...)
+				expAcks = append(expAcks, &codec.Packet{Type: codec.PUBACK, PacketID: id})
+				expFwd = append(expFwd, want{topic, pl, 1})
+			}
+			for sent := 0; sent < 24000; sent += 4000 {
+				out = append(out, codec.Encode(&codec.Packet{Type: codec.PUBLISH, Topic: []byte("f/x"), Payload: bytes.Repeat([]byte{0xEE}, 4000)})...)
+			}
+			P.SendAsync(out)
+			settled(300 * time.Millisecond)
+			S.Unstall()
 		case "reconnect":
 			// the publisher's connection drops and the client comes back with CleanSession=0:
 			// exchanges that were open stay open
@@ -265,6 +289,8 @@ func genC02(t *rapid.T) C02Case {
 			c.Ops = append(c.Ops, C02Op{K: "rel"})
 		case k == 9:
 			c.Ops = append(c.Ops, C02Op{K: "duprel", ID: id})
+		case k == 10 && rapid.IntRange(0, 2).Draw(t, "jam") == 0:
+			c.Ops = append(c.Ops, C02Op{K: "jam"})
 		case k == 10:
 			c.Ops = append(c.Ops, C02Op{K: "filler", Volume: rapid.SampledFrom([]int{8000, 20000, 50000}).Draw(t, "vol")})
 		case k == 11 && rapid.Bool().Draw(t, "reconnect"):
